@@ -17,6 +17,10 @@ AGGR = {
     "altrow": dict(profile="samebank_altrow", gap=0, bank=1, rank=0),
     "allwrite": dict(profile="uniform", gap=0, dir="w"),
     "allread": dict(profile="uniform", gap=0, dir="r"),
+    # continuous single-direction streams that never leave a gap in read/write availability at the multiplexer:
+    # one port streams inside one row, a second one hops rows in another bank (keeps the command chooser busy)
+    "wstream": [dict(profile="samerow", gap=0, dir="w", bank=0, rank=0), dict(profile="samebank_altrow", gap=0, dir="w", bank=3, rank=0)],
+    "rstream": [dict(profile="samerow", gap=0, dir="r", bank=0, rank=0), dict(profile="samebank_altrow", gap=0, dir="r", bank=3, rank=0)],
 }
 VICTIM = {
     "same_r": dict(profile="samebank_rows", bank=1, rank=0, dir="r", gap=40),
@@ -32,7 +36,9 @@ def scenarios(tier, seed):
         plan = [("SDR", "samebank", "same_r", 2), ("SDR", "allwrite", "other_r", 2), ("DDR3", "allread", "other_w", 3),
                 ("DDR3", "altrow", "same_w", 2), ("DDR", "samerow", "same_r", 2), ("DDR3_200", "allwrite", "mixed", 4),
                 ("DDR4", "samebank", "other_r", 3), ("DDR2", "allread", "same_w", 2),
-                ("DDR3_half", "allwrite", "other_r", 3), ("DDR3_half", "allread", "other_w", 3)]
+                ("DDR3_half", "allwrite", "other_r", 3), ("DDR3_half", "allread", "other_w", 3),
+                ("DDR3_half", "wstream", "other_r", 3), ("DDR3_half", "rstream", "other_w", 3), ("SDR", "wstream", "other_r", 3),
+                ("SDR", "altrow", "other_r", 2), ("DDR3", "altrow", "other_w", 3), ("DDR", "rstream", "other_w", 3)]
         ncmd = 6000
     else:
         plan = []
@@ -40,7 +46,7 @@ def scenarios(tier, seed):
         for b in ["SDR", "SDR166", "DDR", "LPDDR", "DDR2", "DDR3", "DDR3_200", "DDR3_half", "DDR4"]:
             for a in AGGR:
                 for v in VICTIM:
-                    if (i % 3) == 0:
+                    if (i % 3) == 0 or (a in ("wstream", "rstream", "altrow") and v.startswith("other")):
                         plan.append((b, a, v, 2 + (i % 4)))
                     i += 1
         ncmd = 9000
@@ -48,9 +54,11 @@ def scenarios(tier, seed):
     for i, (b, a, v, nports) in enumerate(plan):
         ports = [dict(VICTIM[v], ncmd=ncmd // 60, seed=9, partial=0.1)]
         for k in range(nports - 1):
-            ports.append(dict(AGGR[a], ncmd=ncmd, seed=20 + k))
-        out.append(scenario("%s-%s-%s-%dp" % (b, a, v, nports), b, ports, seed * 7 + i, tech=dict(tREFI=2000),
-                            ctrl=dict(cmd_buffer_depth=[8, 4, 2][i % 3]), max_cycles=400000, drain=60000, sweep_max=40))
+            ag = AGGR[a][k % len(AGGR[a])] if isinstance(AGGR[a], list) else AGGR[a]
+            ports.append(dict(ag, ncmd=ncmd * (2 if isinstance(AGGR[a], list) else 1), seed=20 + k))
+        norefresh = a in ("wstream", "rstream") and i % 2 == 0
+        out.append(scenario("%s-%s-%s-%dp%s" % (b, a, v, nports, "-noref" if norefresh else ""), b, ports, seed * 7 + i, tech=dict(tREFI=2000),
+                            ctrl=dict(cmd_buffer_depth=[8, 4, 2][i % 3], with_refresh=not norefresh), max_cycles=600000, drain=60000, sweep_max=40))
     from . import c03
     return out + c03.mux_lockstep_scenarios(tier, seed)[:2]
 
